@@ -247,8 +247,11 @@ def shapes(tier):
     out.append(([("direct", True)], 2))
     if tier != "quick":
         out.append(([("fmmu", True), ("direct", True)], 2))
-        for a, b, c in itertools.combinations_with_replacement(K[:4], 3):
-            out.append(([a, b, c], 1))
+        # three terminals: mixed kinds (three FMMU terminals with all sizes
+        # symbolic exhaust the path budget)
+        for trio in ([K[0], K[2], K[1]], [K[2], K[3], K[0]], [K[0], K[1], K[3]],
+                     [K[2], K[2], K[1]]):
+            out.append((trio, 1))
         out.append(([("fmmu", True), ("fmmu", False)], 3))
     return out
 
@@ -273,7 +276,7 @@ def worker(args):
 def main(tier, replay_file=None):
     ck = common.Check(
         "C18", tier, "model_checking", FUNCTIONS,
-        bounds=dict(terminals="1..2 (thorough 3) per group; kinds FMMU / "
+        bounds=dict(terminals="1..2 per group in all kind combinations (thorough: also 4 mixed trios); kinds FMMU / "
                               "direct / Aerotech-style allocator; read-write "
                               "or read-only",
                     sizes="every input/output size (and Aerotech packet size) "
